@@ -86,15 +86,15 @@ func init() {
 	}
 	checks["C08"] = &CheckDef{
 		Pkgs:        []string{"./control"},
-		Harness:     []string{"control:Verif_C08_lookup", "control:Verif_C08_fixed_ttl_case", "control:Verif_C08_janitor", "control:Verif_C08_lru", "control:Verif_C08_reload"},
+		Harness:     []string{"control:Verif_C08_lookup", "control:Verif_C08_fixed_ttl_case", "control:Verif_C08_concurrent_lookups", "control:Verif_C08_janitor", "control:Verif_C08_lru", "control:Verif_C08_reload"},
 		MaxIter:     400,
 		Level:       "other",
 		LevelText:   "Entries are created only through the real production insert path (UpdateDnsCacheTtlWithKey -> __updateDnsCacheDeadline with the NewCache closure of ControlPlane.dnsControllerOption and prepackResponseBeforeStore); every instant (insert, lookups, janitor), every TTL, and the optimistic/stale/fixed-TTL/size knobs are bit-vector variables. The solver shows for all of them: exact scoping of keys, served iff fresh or (optimistic and inside the stale window), exactly one refresh request per stale period, shown TTL >= 1 and <= remaining + 1 + 15 s, janitor removes exactly the run-out entries, LRU evicts exactly the least recently used, reload clone keeps deadline/packed TTL. 64-bit division by 10^9 is decided by cvc5 --solve-bv-as-int when z3 gives up.",
 		LevelNote:   "Trusted: go/ssa, executor, z3/cvc5, harness spec. time.Time is abstracted to one int64 Unix-nanosecond instant (DESIGN 2.6); miekg/dns wire packing is replaced by an opaque blob that remembers the TTL it was packed with; kernel-table side effects (C10) are no-ops; clocks are arbitrary non-decreasing instants below 2^61 ns.",
 		Technique:   techniqueText,
 		Explanation: "Bounded symbolic execution of the DNS cache insert, lookup, janitor, LRU and reload-clone code with symbolic instants.",
-		Bounds:      map[string]string{"quick": "fixed_ttl_case: one insert of an answer to the name spelled 4 ways (case, final dot), symbolic fixed ttl and record ttl; lookup: 1 entry, 1 insert + <=2 lookups at arbitrary instants, ttl 0..31536000, stale window 0..3600 s, fixed ttl 0..86400; janitor: 2 entries, 1 pass; LRU: 4 entries with arbitrary distinct access times, limit 1..3; reload: 1 clone", "thorough": "same with LRU over 6 entries"},
-		Outside:     []string{"DNS wire packing (miekg/dns)", "concurrent lookups (refresh flag is a CAS; sequential here)", "async BPF update worker"},
+		Bounds:      map[string]string{"quick": "concurrent_lookups: 2 racing lookups of one entry (ttl 300), arbitrary instants, 1 preemption at atomic operations; fixed_ttl_case: one insert of an answer to the name spelled 4 ways (case, final dot), symbolic fixed ttl and record ttl; lookup: 1 entry, 1 insert + <=2 lookups at arbitrary instants, ttl 0..31536000, stale window 0..3600 s, fixed ttl 0..86400; janitor: 2 entries, 1 pass; LRU: 4 entries with arbitrary distinct access times, limit 1..3; reload: 1 clone", "thorough": "same with LRU over 6 entries"},
+		Outside:     []string{"DNS wire packing (miekg/dns)", "more than two concurrent lookups / more than one preemption (concurrent_lookups: 2 lookups of one fresh entry, 1 preemption); the stale-refresh flag under concurrency (a CAS; sequential here)", "async BPF update worker"},
 		Assumptions: []string{"time.Time abstraction: Unix nanoseconds, no zones", "Msg.Pack replaced by TTL-carrying blob", "clock non-decreasing, < 2^61 ns"},
 		QuickBudget: 8 * time.Minute, ThoroughBudget: 20 * time.Minute,
 	}
